@@ -60,17 +60,30 @@ def Final.planRanOut : Final → Bool
   | .exhausted _ => true
   | _ => false
 
+/-- A retry policy as the fiber sees it: `new_session()` and `decide_should_retry` (any `RetryPolicy`
+implementation, with session state `σ`). -/
+structure PolicyFn (σ : Type) where
+  init : σ
+  decide : σ → ReqInfo → σ × Decision
+
+/-- The three built-in policies. -/
+abbrev builtin (pol : Policy) : PolicyFn Sess := ⟨Sess.init, decideRetry pol⟩
+
+/-- A test policy that answers the `i`-th consultation with the `i`-th scripted decision (`DontRetry` when the
+script is over).  Used by the correspondence check to drive every arm of the loop with every consistency,
+independently of what the built-in policies happen to answer. -/
+def scripted (ds : List Decision) : PolicyFn Nat := ⟨0, fun i _ => (i + 1, ds.getD i .dontRetry)⟩
+
 /-- Loop variables of the fiber. -/
-structure Loc where
+structure Loc (σ : Type) where
   /-- number of `run_request_once` calls made so far (index of the next outcome) -/
   k : Nat
   /-- `current_consistency` -/
   cl : Consistency
   /-- `context.retry_session`: created lazily by the first `retry_session()` call (`:317-322`) -/
-  sess : Option Sess
+  sess : Option σ
   /-- `last_error` -/
   lastErr : Option LastErr
-  deriving DecidableEq, Repr, Inhabited
 
 /-- Everything observable about one fiber. -/
 structure Trace where
@@ -89,33 +102,40 @@ def Trace.push (tr : Trace) (a : Attempt) (d : Decision) (created : Nat) : Trace
 
 /-- The fiber loop.  `plan` = the targets not yet consumed (head = the current target), `t` = plan index of
 the head.  Every iteration of either loop consumes one unit of fuel. -/
-def exec (pol : Policy) (idem : Bool) (outcomes : Nat → Outcome) :
-    Nat → List Bool → Nat → Loc → Trace
+def exec {σ : Type} (P : PolicyFn σ) (idem : Bool) (outcomes : Nat → Outcome) :
+    Nat → List Bool → Nat → Loc σ → Trace
   | _, [], _, loc => ⟨[], [], .exhausted loc.lastErr, 0⟩            -- :649 `last_error.map(Result::Err)`
   | 0, _ :: _, _, _ => ⟨[], [], .outOfFuel, 0⟩
   | fuel + 1, false :: rest, t, loc =>                               -- :546-557 choosing a connection failed
-    exec pol idem outcomes fuel rest (t + 1) { loc with lastErr := some .pool }
+    exec P idem outcomes fuel rest (t + 1) { loc with lastErr := some .pool }
   | fuel + 1, true :: rest, t, loc =>
     let a : Attempt := ⟨t, loc.cl⟩                                   -- :575-578 run_request_once
     match outcomes loc.k with
     | .ok => ⟨[a], [], .completed t, 0⟩                              -- :581-594
     | .fail e =>
       let created := if loc.sess.isSome then 0 else 1                -- :317-322 get_or_insert_with
-      let r := decideRetry pol (loc.sess.getD Sess.init) ⟨e, idem, loc.cl⟩ -- :611-617
-      let loc' : Loc := ⟨loc.k + 1, r.2.newCl.getD loc.cl, some r.1, some (.attempt e)⟩
+      let r := P.decide (loc.sess.getD P.init) ⟨e, idem, loc.cl⟩       -- :611-617
+      let loc' : Loc σ := ⟨loc.k + 1, r.2.newCl.getD loc.cl, some r.1, some (.attempt e)⟩
       match r.2 with
       | .retrySame _ =>                                              -- :626-630
-        (exec pol idem outcomes fuel (true :: rest) t loc').push a r.2 created
+        (exec P idem outcomes fuel (true :: rest) t loc').push a r.2 created
       | .retryNext _ =>                                              -- :631-635
-        (exec pol idem outcomes fuel rest (t + 1) loc').push a r.2 created
+        (exec P idem outcomes fuel rest (t + 1) loc').push a r.2 created
       | .dontRetry => ⟨[a], [.dontRetry], .stopped e, created⟩       -- :636 then :649
       | .ignoreWrite => ⟨[a], [.ignoreWrite], .ignored t, created⟩   -- :637-642
 
 /-- Initial loop variables (`:537-538`; `retry_session: None` at `:470/:497`). -/
-def Loc.init (cl0 : Consistency) : Loc := ⟨0, cl0, none, none⟩
+def Loc.init {σ : Type} (cl0 : Consistency) : Loc σ := ⟨0, cl0, none, none⟩
 
-/-- One request without speculative execution: a single fiber over the whole plan. -/
+/-- One request without speculative execution, any retry policy: a single fiber over the whole plan, given
+`fuel` loop iterations. -/
+def runWith {σ : Type} (P : PolicyFn σ) (idem : Bool) (cl0 : Consistency) (plan : List Bool)
+    (outcomes : Nat → Outcome) (fuel : Nat) : Trace :=
+  exec P idem outcomes fuel plan 0 (Loc.init cl0)
+
+/-- One request with a built-in policy.  The fuel is proved sufficient (`Props.C06.loop_terminates`,
+`fuel_irrelevant`). -/
 def run (pol : Policy) (idem : Bool) (cl0 : Consistency) (plan : List Bool) (outcomes : Nat → Outcome) : Trace :=
-  exec pol idem outcomes (plan.length + sameTargetBound pol + 1) plan 0 (Loc.init cl0)
+  runWith (builtin pol) idem cl0 plan outcomes (plan.length + sameTargetBound pol + 1)
 
 end ScyllaVerif.Exec
